@@ -419,6 +419,7 @@ static void gen_transport(vh_rng_t *rng)
   gen_default_appcfg(rng);
   gen_srv_base(3);
   sim_no_subms_jitter = 1;
+  sim_fifo_events     = 1;
   for (i = 0; i < sim_nsrv; i++) {
     vsrv_t *s = &sim_srv[i];
     int     m = (int)vh_below(rng, 10);
@@ -514,7 +515,12 @@ static void xp_check_tc(const char *run)
         break;
       }
     }
-    if (j < sim_ntx && !sim_tx[j].tcp) {
+    if (j >= sim_ntx) {
+      /* the truncated reply arrives within 20 ms of a 2000 ms timeout on a socket the query is still on,
+       * nothing cancels requests in this profile and TCP connects always succeed: the question must
+       * reappear over TCP, whatever the remaining retry budget */
+      vh_violation("xport:tc-not-upgraded", "run %s: query '%s' got a truncated UDP reply but was never sent over TCP", run, sim_tx[i].qname);
+    } else if (!sim_tx[j].tcp) {
       /* next transmission of that query is UDP again: legitimate only if it timed out first (reply delayed
        * beyond the timeout) - replies here arrive within 20 ms of a 2000 ms timeout */
       vh_violation("xport:tc-not-upgraded", "run %s: query '%s' got a truncated UDP reply but was next sent over UDP again", run,
@@ -555,14 +561,9 @@ static void run_transport(vh_rng_t *rng)
   /* NOTE: how the application polls (one descriptor per call, blocking-socket mode) is deliberately NOT varied
    * between A and B: reporting readiness late lets timers fire first, which legitimately changes outcomes and
    * has nothing to do with how the transport chops bytes. */
-  {
-    /* B also sprinkles zero-length datagrams (harmless by the statement) */
-    int z = (int)vh_below(&seg_rng, 3);
-    for (i = 0; i < z; i++) {
-      /* delivered to whatever UDP socket is open at that time: see app hook below */
-      gen_add_action((int64_t)vh_below(&seg_rng, 40000), AA_READONLY, 0, 0);
-    }
-  }
+  /* B also has every server put a zero-length datagram on the wire together with each UDP reply
+   * (harmless by the statement), so that empty datagram and answer are queued in the same read pass */
+  sim_zerolen_with_udp_reply = vh_chance(&seg_rng, 1, 2);
   run_generic(rng);
   xp_check_tc("B");
   xp_capture(&xp_b);
